@@ -110,15 +110,19 @@ func specPow2D(n int32) bool {
 //@ assigns Pass1.LOC, ocodeClient.Ocodes
 
 //@ func processDW
-//@ props C05 C03
+//@ props C05 C03 C07
 //@ requires env != nil && env.Client != nil
-//@ loop 0 invariant loc == int32(2*len(ocodes))
+//@ loop 0 invariant[loc@C05+C03] loc == int32(2*len(ocodes))
+//@ loop 0 invariant[nodrop@C07] len(ocodes) == iter || vcLoggedError()
+//@ calls[nodrop@C07] emitCommand : len(arg2) == len(operands) || vcLoggedError()
 //@ assigns Pass1.LOC, ocodeClient.Ocodes
 
 //@ func processDD
-//@ props C05 C03
+//@ props C05 C03 C07
 //@ requires env != nil && env.Client != nil
-//@ loop 0 invariant loc == int32(4*len(ocodes))
+//@ loop 0 invariant[loc@C05+C03] loc == int32(4*len(ocodes))
+//@ loop 0 invariant[nodrop@C07] len(ocodes) == iter || vcLoggedError()
+//@ calls[nodrop@C07] emitCommand : len(arg2) == len(operands) || vcLoggedError()
 //@ assigns Pass1.LOC, ocodeClient.Ocodes
 
 // specModesOK: the two copies of the bit mode (pass 1's and the code generation
